@@ -422,6 +422,25 @@ func ruleR02_2(w *World, r *Report) {
 				}
 			}
 			r.Check(okAll, name, u.Pos(in.Pos()), fmt.Sprintf("%d paths, each guarded by one of %v", len(paths), s.accept), detail)
+			// the winner is stamped with the incoming timestamp / is the incoming element
+			switch x := in.(type) {
+			case *ssa.MapUpdate:
+				r.Check(sideKind(x.Value) == "incoming", name+"/stores the incoming element", u.Pos(in.Pos()), exprName(x.Value), "the element stored after winning the comparison is "+exprName(x.Value)+", not the incoming one")
+			case ssa.CallInstruction:
+				_, args := recvAndArgs(x)
+				switch calleeName(x) {
+				case "makeTomb", "setTime":
+					r.Check(len(args) == 1 && sideKind(args[0]) == "incoming", name+"/stamped with the incoming timestamp", u.Pos(in.Pos()), "incoming timestamp", "the element is stamped with a timestamp that is not the incoming operation's: later comparisons use a wrong clock")
+				case "setValue":
+					paired := false
+					for _, c := range callsNamed(fn, "setTime") {
+						if c.Block() == x.Block() {
+							paired = true
+						}
+					}
+					r.Check(paired, name+"/value and time change together", u.Pos(in.Pos()), "setValue with setTime", "the value is replaced without its timestamp: the next older update would win over it")
+				}
+			}
 		}
 	}
 }
